@@ -394,7 +394,9 @@ func c12concInstance(tr c12tree, backend string, cp *c12cp, threads [][]c12call)
 		if dones != 1 {
 			return fmt.Sprintf("completion was signalled %d times for one restore of %d chunks", dones, len(cp.chunks))
 		}
-		if !dup && results[len(results)-1].done == false {
+		if !dup && !conc.FreeRunning && results[len(results)-1].done == false {
+			// (under the cooperative scheduler the order of the reports is the order in which the calls returned;
+			// free-running goroutines can report in another order than they returned)
 			// the caller that finishes last must be the one that is told the restore is complete,
 			// otherwise the driver finalizes while a chunk import is still running
 			return "completion was signalled to a caller that did not finish last"
